@@ -301,6 +301,13 @@ func (s *Sim) loop() {
 		}
 		if s.step >= s.cfg.MaxSteps {
 			s.capped = true
+			// every harness workload is finite and comes to rest within a few hundred steps: a run that is still
+			// moving after MaxSteps scheduling steps (by default a hundred times that) is a livelock - some task keeps
+			// running, typically a loop waiting for something that never happens - and is reported, not discarded
+			if s.failure == nil {
+				s.failure = &Failure{Oracle: "termination", Sig: "no-quiescence-within-step-cap", Step: s.step,
+					Detail: fmt.Sprintf("the run did not come to rest within %d scheduling steps (fake time %v): unfinished tasks %s", s.cfg.MaxSteps, time.Since(s.start), s.describeBlocked())}
+			}
 			return
 		}
 		var opt option
